@@ -1,5 +1,6 @@
 """C06 - the unsampled solver gives the same answer for every thread count."""
 import math
+import os
 
 from ..common import b2f, f2b
 from ..gen import gen_tree, infosets_of
@@ -8,6 +9,8 @@ from ..solvers import rand_params, draws_for, level_tree, alternating_tree, hidd
 
 METHODS = ["full"]
 PID = "C06"
+EXPLAINED = []          # thread differences explained by rounding sensitivity of the algorithm itself (evidence)
+NOT_EXPLAINED = [0]
 SCOPE = {"solve", "named"}
 REL = 1e-8
 N_QUICK = 150
@@ -146,8 +149,16 @@ def monitor(cb, impl):
                         diff = diff or "player %d infoset %s action %s: %r vs %r" % (
                             pl + 1, i, a, v0[pl][i].get(a, 0.0), vk[pl][i].get(a, 0.0))
         if diff:
-            hits.append(("%s, %d iterations, params %r, threshold %r: %d threads differ from 1 thread: %s"
-                         % (m["method"], m["T"], m["params"], m["r"], k, diff), "thread-dependent"))
+            from .. import core
+            explained, why = (False, "")
+            if len(EXPLAINED) + NOT_EXPLAINED[0] < 12:       # bounded work: a real defect shows on many cases
+                explained, why = core.thread_difference_explained(cb, idx, 1e-9, name="condt_%d" % os.getpid())
+            if explained:
+                EXPLAINED.append({"case": cb.cid, "threads": k, "why": why})
+                continue
+            NOT_EXPLAINED[0] += 1
+            hits.append(("%s, %d iterations, params %r, threshold %r: %d threads differ from 1 thread: %s%s"
+                         % (m["method"], m["T"], m["params"], m["r"], k, diff, ("  [" + why + "]") if why else ""), "thread-dependent"))
         # draws: at most one per (kind, cell, pass)
         evs = s.get("events")
         if evs:
